@@ -109,6 +109,10 @@ class StreamStub:
         self._adv()
         return self.rs.random_sample(*a, **k)
 
+
+    def random_sample(self, *a, **k):
+        return self.random(*a, **k)
+
     def randn(self, *a):
         self._adv()
         return self.rs.randn(*a)
@@ -231,6 +235,8 @@ def make_noreset(op):
                 h.predict(X)
             elif op == "systematic-resample":
                 tools_mod.systematic_resample(8, np.full(8, 1 / 8))
+            elif op == "systematic-resample-random_state":
+                tools_mod.systematic_resample(8, np.full(8, 1 / 8), random_state=5)
             elif op == "hier-fit-twice":
                 for _ in range(2):
                     stub.epoch += 1
@@ -392,6 +398,8 @@ def make_noreset(op):
                         h.predict(X)
                     elif op == "systematic-resample":
                         tools_mod.systematic_resample(8, np.full(8, 1 / 8))
+                    elif op == "systematic-resample-random_state":
+                        tools_mod.systematic_resample(8, np.full(8, 1 / 8), random_state=5)
                     elif op == "hier-fit-twice":
                         cents = []
                         for _ in range(2):
@@ -534,7 +542,7 @@ def make_seeding():
 
 
 def obligations(tier):
-    ops = ["gmm-fit-default", "gmm-fit-random_state", "hier-fit-predict", "systematic-resample", "sampler-iterations-clustering-tpcn-mult",
+    ops = ["gmm-fit-default", "gmm-fit-random_state", "hier-fit-predict", "systematic-resample", "systematic-resample-random_state", "sampler-iterations-clustering-tpcn-mult",
            "sampler-iterations-seeded-clustering-rwm-syst", "sampler-iterations-seeded-noclustering-tpcn-mult",
            "hier-fit-twice", "sampler-posterior-seeded", "sampler-iterations-seeded-noclustering-rwm-mult-ckpt",
            "sampler-iterations-seeded-noclustering-tpcn-mult-zeroregion", "sampler-save-load-resume-seeded"]
